@@ -205,6 +205,7 @@ class Verifier:
         self._order_fns = {}
         self._str_fns = {}
         self.cur = None
+        self.failed_names = set()
         self.obligation_sites = set()
 
     # ---------------------------------------------------------------- small services
@@ -546,6 +547,11 @@ class Verifier:
 
     def record(self, ob):
         self.results.append(ob)
+        if ob.status != "proved":
+            self.failed_names.add(ob.name)
+            if len(self.failed_names) >= self.max_failures:
+                self.worklist[:] = []
+                self.aborted = True
 
     def fallback_prove(self, pc, p):
         from .smt import fallback_prove
@@ -565,6 +571,9 @@ class Verifier:
         self.bounds_hit = set()
         self.covered = set()
         self.obligation_sites = set()
+        self.failed_names = set()
+        self.aborted = False
+        self.max_failures = 4
         self.exits = 0
         self.paths = 0
         self.errors = []
